@@ -251,6 +251,8 @@ func c06main(c *Ctx) {
 		defer slog.SetLevelOutputWidth(3)
 		defer slog.SetMessageMinimalWidth(36)
 		otherFlags := randomOtherFlags(r, slog.Ldate, slog.Ltime, slog.Lmicroseconds, slog.LlocalTime, slog.Lattrs)
+		warm := r.Intn(6)
+		c.R.Distinct("same_logger_logged_before_in", []string{"-", "-", "json", "logfmt", "color", "a record that panicked while being formatted (recovered)"}[warm])
 		run := func(cs c06case) ([]byte, []tv) {
 			if cs.caller {
 				slog.AddFlags(slog.Lcaller)
@@ -260,6 +262,22 @@ func c06main(c *Ctx) {
 			slog.SetLevelOutputWidth(cs.tagW)
 			slog.SetMessageMinimalWidth(cs.minW)
 			lg := newRoot(cs.name, FColor, w, slog.AlwaysLevel)
+			// the logger is not always fresh and colored from its first record: it may have logged in another format, in
+			// colour already (a multi-line record with attributes), or the record before this one died in a panicking value
+			switch warm {
+			case 2:
+				lg.SetJSONMode(true)
+				lg.Info("warm-up record in JSON", "w", 1)
+				lg.SetColorMode(true)
+			case 3:
+				lg.SetColorMode(false)
+				lg.Info("warm-up record in logfmt", "w", 1, slog.Group("wg", "x", 1))
+				lg.SetColorMode(true)
+			case 4:
+				lg.Warn("warm-up record in colour\nsecond line\nthird", "w", 1, slog.Group("wg", "x", 1, "y", 2))
+			case 5:
+				doomedRecord(FColor, w)
+			}
 			evs := capture(log, func() { lg.WriteThru(bg, cs.lvl, cs.ts, thePC, cs.msg, attrsOf(cs.kvs)) })
 			c.R.Add("write_events", int64(len(evs)))
 			if len(evs) != 1 || evs[0].Kind != mon.EvWrite {
@@ -295,6 +313,7 @@ func c06main(c *Ctx) {
 		desc := cs.desc(FColor)
 		desc["ts"] = cs.ts.Format(time.RFC3339Nano)
 		desc["tag_width"], desc["min_width"], desc["layout_domain"], desc["other_flags"] = cs.tagW, cs.minW, cs.layoutOK, otherFlags
+		desc["same_logger_logged_before_in"] = []string{"-", "-", "json", "logfmt", "color", "a record that panicked while being formatted (recovered)"}[warm]
 		payload, viols := run(cs)
 		if len(viols) == 0 {
 			c.R.Add("records_decoded", 1)
